@@ -41,6 +41,7 @@ class Sched:
         self.private = set()
         self.steps = 0
         self.max_steps = 5000
+        self.last_run = {}
         self.script = None          # concrete replay: list of (thread name, timed_out) decisions
 
     def all(self):
@@ -70,7 +71,12 @@ class Sched:
             stuck = [(t.name, t.what) for t in self.all() if t.started and not t.finished]
             self._fail(me, Outcome("deadlock", "no thread can run; blocked: %s" % stuck))
         if self.script is not None:
+            # replay / fair mode: follow the script; once it is exhausted be fair - prefer threads that can really run over
+            # time-outs, least recently run first
             k = 0
+            if not self.script:
+                order = sorted(range(len(opts)), key=lambda i: (opts[i][1], self.last_run.get(opts[i][0].name, -1)))
+                k = order[0]
             if self.script:
                 name, to = self.script.pop(0)
                 for i, (t, o) in enumerate(opts):
@@ -84,6 +90,7 @@ class Sched:
             t.timed_out = True
             t.timeouts += 1
         self.log.append((t.name, to))
+        self.last_run[t.name] = self.steps
         if t is me:
             return
         if not me.finished and me.can_run():
@@ -195,10 +202,14 @@ class CoopQueue:
         self.touched = set()
 
     def _touch(self):
-        self.touched.add(Sched.cur.current.name)
+        if Sched.cur is not None:
+            self.touched.add(Sched.cur.current.name)
 
     def put(self, x, block=True, timeout=None):
         s = Sched.cur
+        if s is None or s.abort is not None:
+            self.items.append(x)       # outside a scheduled run (e.g. a finaliser): plain queue behaviour
+            return
         s.yield_(lambda: True, what="put")
         self._touch()
         self.items.append(x)
@@ -207,6 +218,10 @@ class CoopQueue:
 
     def get(self, block=True, timeout=None):
         s = Sched.cur
+        if s is None or s.abort is not None:
+            if not self.items:
+                raise Empty
+            return self.items.pop(0)
         to = s.yield_(lambda: len(self.items) > 0, can_timeout=timeout is not None, what="get")
         self._touch()
         if to:
@@ -215,6 +230,10 @@ class CoopQueue:
 
     def get_nowait(self):
         s = Sched.cur
+        if s is None or s.abort is not None:
+            if not self.items:
+                raise Empty
+            return self.items.pop(0)
         if id(self) not in s.private:
             s.yield_(lambda: True, what="get_nowait")
         self._touch()
@@ -227,6 +246,24 @@ class CoopQueue:
 
     def qsize(self):
         return len(self.items)
+
+
+def coop_sleep(seconds=0):
+    """time.sleep: the sleeper resumes only when no other thread can run (a fair stand-in for 'later')"""
+    s = Sched.cur
+    if s is None:
+        return
+    me = s.current
+    s.yield_(lambda: not any(t is not me and t.started and not t.finished and t.can_run() for t in s.all()), what="sleep")
+
+
+def time_module():
+    import time as _time
+    m = types.ModuleType("sx_time")
+    m.__dict__.update({k: v for k, v in _time.__dict__.items() if not k.startswith("__")})
+    m.sleep = coop_sleep
+    sys.modules["sx_time"] = m
+    return "sx_time"
 
 
 def modules():
